@@ -14,9 +14,14 @@ VARIABLES l,      \* index of the current log line
           cnt,    \* [Slot -> number of observed messages of the current round already explained]
           sdone,  \* slots whose closing barrier ping was applied
           gone,   \* slots whose client closed (nothing more is read on them)
-          kicked  \* slots the daemon closed (expected: the client saw EOF)
+          kicked, \* slots the daemon closed (expected: the client saw EOF)
+          devs    \* names of the known-defect deviations that were needed to explain the trace
 
-tvars == <<l, pos, cnt, sdone, gone, kicked>>
+tvars == <<l, pos, cnt, sdone, gone, kicked, devs>>
+\* deviations tolerated in this run: one JSON object {"dev": name} per line of the file named by VERIF_DEVS
+DevSet == LET d == ndJsonDeserialize(IOEnv.VERIF_DEVS) IN {d[i].dev : i \in 1..Len(d)}
+Plain(A) == A /\ UNCHANGED devs
+Dev(name, A) == name \in DevSet /\ A /\ devs' = devs \cup {name}
 Ev == Log[l]
 IsRound == l <= Len(Log) /\ Ev.e = "Round"
 
@@ -29,7 +34,7 @@ ZeroPos == [s \in Slot |-> 0]
 TInit ==
   /\ l = 1 /\ Len(Log) >= 1 /\ Log[1].e = "Reset"
   /\ cfg = MkCfg(Log[1].cfg) /\ Init0
-  /\ pos = ZeroPos /\ cnt = ZeroPos /\ sdone = {} /\ gone = {} /\ kicked = {}
+  /\ pos = ZeroPos /\ cnt = ZeroPos /\ sdone = {} /\ gone = {} /\ kicked = {} /\ devs = {}
   /\ TLCSet(1, 0)
 
 \* ---- comparing an observed message with an expected one
@@ -64,27 +69,35 @@ GroupMatch(os, es) ==
 GroupFor(o, r) == LET sel == SelectSeq(o, LAMBDA e : e.to = r) IN [i \in 1..Len(sel) |-> sel[i].m]
 
 \* after a Bus action: every client that is still reading must have observed exactly what was staged for it
-Explain(g) ==
-  /\ \A r \in Slot : r \notin g =>
+Debug == IOEnv.VERIF_DEBUG = "1"
+ExplainOK(g) ==
+  \A r \in Slot : r \notin g =>
         LET grp == GroupFor(out', r) IN
         /\ cnt[r] + Len(grp) <= Len(Ev.obs[r])
         /\ GroupMatch(SubSeq(Ev.obs[r], cnt[r] + 1, cnt[r] + Len(grp)), grp)
+Explain(g) ==
+  /\ \/ ExplainOK(g)
+     \/ /\ Debug
+        /\ PrintT(<<"MISMATCH", ToJson([l |-> l, pos |-> pos, cnt |-> cnt, out |-> out'])>>)
+        /\ FALSE
   /\ cnt' = [r \in Slot |-> IF r \in g THEN cnt[r] ELSE cnt[r] + Len(GroupFor(out', r))]
 
 \* ---- abstract message of a "send" op
 OpMsg(op) == Msg(op.ty, <<>>, op.dst, op.ser, op.rs, op.path, op.ifc, op.mem, op.err, op.sig, op.args, op.fl, 0, "exact")
 
 Apply(s, op) ==
-  CASE op.k = "connect" -> Connect(s, op.uid)
-    [] op.k = "hello" -> Hello(s, op.ser, op.fl, op.got)
-    [] op.k = "req" -> RequestName(s, op.ser, op.fl, op.n, op.f)
-    [] op.k = "rel" -> ReleaseName(s, op.ser, op.fl, op.n)
-    [] op.k = "query" -> Query(s, op.ser, op.fl, op.q, op.n)
-    [] op.k = "ping" -> Query(s, op.ser, 0, "ping", <<>>)
-    [] op.k = "addmatch" -> AddMatch(s, op.ser, op.fl, op.rule)
-    [] op.k = "rmmatch" -> RemoveMatch(s, op.ser, op.fl, op.rule)
-    [] op.k = "send" -> IF op.dst = BUS THEN DriverOther(s, OpMsg(op)) ELSE Send(s, OpMsg(op))
-    [] op.k = "close" -> PingAndClose(s, op.ser)
+  CASE op.k = "connect" -> Plain(Connect(s, op.uid))
+    [] op.k = "hello" -> Plain(Hello(s, op.ser, op.fl, op.got))
+    [] op.k = "req" -> Plain(RequestName(s, op.ser, op.fl, op.n, op.f))
+    [] op.k = "rel" -> Plain(ReleaseName(s, op.ser, op.fl, op.n))
+    [] op.k = "query" -> Plain(Query(s, op.ser, op.fl, op.q, op.n))
+    [] op.k = "ping" -> Plain(Query(s, op.ser, 0, "ping", <<>>))
+    [] op.k = "addmatch" -> Plain(AddMatch(s, op.ser, op.fl, op.rule))
+    [] op.k = "rmmatch" -> \/ Plain(RemoveMatch(s, op.ser, op.fl, op.rule))
+                           \/ Dev("RemoveMatchAckThenError", Dev_RemoveMatchAckThenError(s, op.ser, op.fl, op.rule))
+    [] op.k = "send" -> \/ Plain(IF op.dst = BUS THEN DriverOther(s, OpMsg(op)) ELSE Send(s, OpMsg(op)))
+                        \/ Dev("LocalReplyUnstamped", Dev_LocalReplyUnstamped(s, OpMsg(op), op.fsnd))
+    [] op.k = "close" -> Plain(PingAndClose(s, op.ser))
 
 TStep(s) ==
   /\ IsRound /\ pos[s] < Len(Ev.ops[s])
@@ -105,19 +118,19 @@ TSync(s) ==
   /\ Query(s, Ev.sync[SyncSer(s)].ser, 0, "ping", <<>>)
   /\ sdone' = sdone \cup {s}
   /\ Explain(gone)
-  /\ UNCHANGED <<l, pos, gone, kicked>>
+  /\ UNCHANGED <<l, pos, gone, kicked, devs>>
 
 TDrop(s) ==
   /\ IsRound
   /\ \E order \in [1..Cardinality(NamesOf(queue, s)) -> NamesOf(queue, s)] : Drop(s, order)
   /\ Explain(gone)
-  /\ UNCHANGED <<l, pos, sdone, gone, kicked>>
+  /\ UNCHANGED <<l, pos, sdone, gone, kicked, devs>>
 
 TExpire(i) ==
   /\ IsRound /\ i \in 1..Len(pend) /\ (pend[i].callee = NoSlot \/ Ev.mayExpire)
   /\ ExpirePending(i)
   /\ Explain(gone)
-  /\ UNCHANGED <<l, pos, sdone, gone, kicked>>
+  /\ UNCHANGED <<l, pos, sdone, gone, kicked, devs>>
 
 \* end of the round: everything read has been explained, every EOF seen by a client is one the model predicts
 EofSet == {Ev.eof[i] : i \in 1..Len(Ev.eof)}
@@ -128,6 +141,7 @@ TEnd ==
   /\ l' = l + 1 /\ pos' = ZeroPos /\ cnt' = ZeroPos /\ sdone' = {}
   /\ kicked' = {}
   /\ gone' = gone \cup kicked
+  /\ UNCHANGED devs
   /\ UNCHANGED vars
 
 TReset ==
@@ -137,9 +151,9 @@ TReset ==
   /\ uid' = [s \in Slot |-> 0] /\ uname' = [s \in Slot |-> <<>>] /\ everNames' = {}
   /\ queue' = <<>> /\ rules' = [s \in Slot |-> <<>>] /\ pend' = <<>> /\ mon' = [s \in Slot |-> <<>>]
   /\ out' = <<>>
-  /\ l' = l + 1 /\ pos' = ZeroPos /\ cnt' = ZeroPos /\ sdone' = {} /\ gone' = {} /\ kicked' = {}
+  /\ l' = l + 1 /\ pos' = ZeroPos /\ cnt' = ZeroPos /\ sdone' = {} /\ gone' = {} /\ kicked' = {} /\ UNCHANGED devs
 
-TFirst == l = 1 /\ l' = 2 /\ UNCHANGED vars /\ UNCHANGED <<pos, cnt, sdone, gone, kicked>>
+TFirst == l = 1 /\ l' = 2 /\ UNCHANGED vars /\ UNCHANGED <<pos, cnt, sdone, gone, kicked, devs>>
 
 TNext == \/ TFirst \/ TReset \/ TEnd
          \/ \E s \in Slot : TStep(s) \/ TSync(s) \/ TDrop(s)
@@ -151,7 +165,8 @@ TSpec == TInit /\ [][TNext]_<<vars, tvars>>
 RECURSIVE SumPos(_)
 SumPos(T) == IF T = {} THEN 0 ELSE LET x == CHOOSE y \in T : TRUE IN pos[x] + SumPos(T \ {x})
 Here == l * 1000 + (IF IsRound THEN SumPos(Slot) + Cardinality(sdone) ELSE 0)
-Progress == TLCSet(1, IF TLCGet(1) > Here THEN TLCGet(1) ELSE Here)
+Progress == /\ TLCSet(1, IF TLCGet(1) > Here THEN TLCGet(1) ELSE Here)
+            /\ (l > Len(Log) /\ devs # {} => PrintT(<<"DEVS_USED", devs>>))
 Accepted == IF TLCGet(1) >= (Len(Log) + 1) * 1000 THEN TRUE
             ELSE /\ PrintT(<<"REJECTED_AT", TLCGet(1) \div 1000, TLCGet(1) % 1000, "of", Len(Log)>>) /\ FALSE
 =============================================================================
